@@ -1,5 +1,18 @@
-From Coq Require Import ZArith.
-From DV Require Import Lca CommitGraph.
+From Coq Require Import ZArith List Bool.
+From DV Require Import Lca CommitGraph PeeledCache.
 Require Extraction.
 Require Import ExtrOcamlBasic.
-Extraction "model.ml" find_lcas lca_fuel pick_max encode_graph decode_graph decode_commit Z.succ.
+Definition peel_step := PeeledCache.step.
+Definition peel_current := PeeledCache.current.
+Definition peel_get := PeeledCache.get_peeled.
+Definition peel_empty := PeeledCache.empty_state.
+(* op_plain (Proofs/PeeledCacheP.v) as a test, for the harness to tell the sessions the theorem speaks about *)
+Definition entry_plainb (peel : Z -> Z) (s : pstate) (x : nat * option Z) : bool :=
+  match snd x with Some v => Z.eqb (peel v) v && (match pl s (fst x) with None => true | Some _ => false end) | None => true end.
+Definition peel_plainb (peel : Z -> Z) (s : pstate) (o : PeeledCache.op) : bool :=
+  match o with
+  | OSet _ _ | ODelete _ | OGitPack _ => true
+  | OAddPacked news => forallb (fun x => entry_plainb peel s (fst x, Some (snd x))) news
+  | OPackRefs which => forallb (entry_plainb peel s) (loose_news s which)
+  end.
+Extraction "model.ml" find_lcas lca_fuel pick_max encode_graph decode_graph decode_commit Z.succ peel_step peel_current peel_get peel_empty peel_plainb.
